@@ -213,7 +213,7 @@ SubstringJudged(p, l) == LET hi == Add(Round(p), Round(l)) IN ~IsOOM(p) /\ ~IsOO
 Substring(s, p, l) == SubstrAux(s, 1, Round(p), Add(Round(p), Round(l)))
 StrClass(s) == IF s = "" THEN "empty"
                ELSE IF RTrim(LTrim(s)) \in {"Infinity", "-Infinity"} THEN "infinity"
-               ELSE IF \E i \in 1..Len(s) : Ch(s, i) \in {"~", "^", "`"} THEN "nonascii"
+               ELSE IF \E i \in 1..Len(s) : Ch(s, i) \in {"~", "^", "`", "{", "}", "@"} THEN "nonascii"
                ELSE IF \E i \in 1..Len(s) : IsWs(Ch(s, i)) THEN "ws" ELSE "ascii"
 
 \* ------------------------------------------------------------------ values
